@@ -236,7 +236,16 @@ fn run_uist(sc: &Value) -> Value {
             } else {
                 catch(|| uist_direct(&data, op))
             };
+            // `now` has no AppState method: the in-process answer (what uistv1_client::TestClient::now returns) is the
+            // backtest's clock fields read directly; the handler's answer is compared with it by C20's direct reading
+            let inproc = if o == "now" {
+                let a = data.lock().unwrap();
+                Some(some_or_null(a.backtests.get(&u(&op["id"])).and_then(|b| {
+                    a.datasets.get(&b.dataset_name).map(|d| json!({"now": b.date, "has_next": d.has_next(b.pos)}))
+                })))
+            } else { None };
             let r = r.map(|mut v| {
+                if let Some(ip) = inproc { v["inproc"] = ip; }
                 if let (Some((out, snap)), Some(got)) = (&shadow, v.get("some").cloned()) {
                     let a = data.lock().unwrap();
                     let same = out["trades"] == got["trades"] && out["admitted"] == got["admitted"]
